@@ -513,7 +513,9 @@ class AsyncClient(base_client.BaseClient):
                 await asyncio.wait_for(self._reconnect_abort.wait(), delay)
                 abort = True
             except asyncio.TimeoutError:
-                pass
+                # wait_for() does not look at the event when the timeout is
+                # zero or negative
+                abort = self._reconnect_abort.is_set()
             except asyncio.CancelledError:  # pragma: no cover
                 abort = True
             if abort:
